@@ -62,7 +62,7 @@ def run_fermat(ctx, spec):
   from paranoid_crypto.lib import rsa_single_checks as rs
   rng = ctx.rng('fermat')
   for i in range(spec['n']):
-    bound = rng.choice([1, 10, 1000, 100000])
+    bound = rng.choice([0, 1, 2, 10, 1000, 100000])   # 0: nothing may be found
     pbits = rng.choice([64, 65, 96, 128, 256, 333, 512, 1024, 2048])
     k = rng.choice([0, 1, bound - 2, bound - 1, bound, bound + 1, 2 * bound])
     k = max(k, 0)
